@@ -47,7 +47,7 @@ LhsPaths == {<<Cur>>, <<Cur, Dot(ka)>>, <<Cur, Dot(kb)>>, <<Cur, BrW>>, <<Cur, D
              <<Cur, Idx(<<AiI(IxL(0))>>)>>}
 Cmps == {EBin(op, EPaths(l), EVal(v)) : op \in CmpOps, l \in {<<Cur>>, <<Cur, Dot(ka)>>}, v \in Lits}
         \cup {EBin(op, EPaths(l), EVal(v)) : op \in {"eq", "gt"}, l \in LhsPaths, v \in {PNum(u1), PStr(sab.s), PNull}}
-        \cup {EBin(op, EVal(v), EPaths(l)) : op \in {"lt", "eq"}, l \in {<<Cur>>, <<Cur, Dot(ka)>>}, v \in {PNum(u2), PStr(sab.s)}}
+        \cup {EBin(op, EVal(v), EPaths(l)) : op \in CmpOps, l \in {<<Cur>>, <<Cur, Dot(ka)>>}, v \in {PNum(u2), PNum(f15), PStr(sab.s)}}
         \cup {EBin(op, EPaths(<<Cur, Dot(ka)>>), EPaths(r)) : op \in {"eq", "lt"}, r \in {<<Cur, Dot(kb)>>, <<Root, Dot(kb)>>, <<Root, BrW, Dot(ka)>>}}
         \cup {EBin("eq", EVal(PNum(u1)), EVal(PNum(f1))), EBin("lt", EVal(PNull), EVal(PBool(0)))}
 c1 == EBin("eq", EPaths(<<Cur, Dot(ka)>>), EVal(PNum(u1)))
